@@ -12,6 +12,15 @@ theorem pres_clA {s s' : St} {a : Act} (hI : Inv s) (h : step .repaired s a = so
   | fire t0 =>
     simp only [step] at h
     (repeat' (split at h)) <;> (try cases h) <;> (simp only [St.setPc, St.setObj]; first | (have i_clA := hI.clA; have i_refs := hI.refs; grind [cleanerOf, preSpawn, PC.ref, holdsStore, Obj.fresh]) | (have i_clA := hI.clA; have i_noCl := hI.noCl; have i_refs := hI.refs; have i_lockA := hI.lockA; grind (instances := 4000) [cleanerOf, preSpawn, PC.ref, holdsStore, Obj.fresh]))
+  | corrupt d =>
+    simp only [step] at h
+    (repeat' (split at h)) <;> (try cases h) <;> (simp only []; first | (have i_clA := hI.clA; have i_refs := hI.refs; grind [cleanerOf, preSpawn, PC.ref, holdsStore, Obj.fresh]) | (have i_clA := hI.clA; have i_noCl := hI.noCl; have i_refs := hI.refs; have i_lockA := hI.lockA; grind (instances := 4000) [cleanerOf, preSpawn, PC.ref, holdsStore, Obj.fresh]))
+  | block d =>
+    simp only [step] at h
+    (repeat' (split at h)) <;> (try cases h) <;> (simp only []; first | (have i_clA := hI.clA; have i_refs := hI.refs; grind [cleanerOf, preSpawn, PC.ref, holdsStore, Obj.fresh]) | (have i_clA := hI.clA; have i_noCl := hI.noCl; have i_refs := hI.refs; have i_lockA := hI.lockA; grind (instances := 4000) [cleanerOf, preSpawn, PC.ref, holdsStore, Obj.fresh]))
+  | repair d =>
+    simp only [step] at h
+    (repeat' (split at h)) <;> (try cases h) <;> (simp only []; first | (have i_clA := hI.clA; have i_refs := hI.refs; grind [cleanerOf, preSpawn, PC.ref, holdsStore, Obj.fresh]) | (have i_clA := hI.clA; have i_noCl := hI.noCl; have i_refs := hI.refs; have i_lockA := hI.lockA; grind (instances := 4000) [cleanerOf, preSpawn, PC.ref, holdsStore, Obj.fresh]))
   | run t0 =>
     simp only [step] at h
     split at h
